@@ -4,7 +4,7 @@ from .terms import SELF, FAC, NONE, show, is_const, mentions, subterms
 from .fieldroles import no_interval
 from .catalogue import catalogue
 from .lifecycle import lifecycle, cancels, loop_over
-from .rules.common import contexts, where, short, types, cls_short
+from .rules.common import contexts, where, short, types, cls_short, kind_names
 
 KIND_REG = {"PUBLISH": "windowPublish", "PUBREL": "windowPubRelease", "SUBSCRIBE": "windowSubscribe",
             "UNSUBSCRIBE": "windowUnsubscribe"}
@@ -20,10 +20,23 @@ class Handles:
         self.ty = types(analysis)
         self.lc = lifecycle(analysis, cls)
         # the keepalive bookkeeping object: the protocol attribute the constructor chain binds to a PINGREQ
-        self.ping_attr, self.ping = None, None
-        for (obj, field), val in self.eng.init_heap.items():
-            if obj == SELF and isinstance(val, tuple) and val and val[0] == "new" and val[1].split(".")[-1] == "PINGREQ":
-                self.ping_attr, self.ping = field, val
+        # - or to a helper object of a repository class that holds the PINGREQ (or its encoding) in one of its own fields
+        self.ping_attr, self.ping, self.ping_packet = None, None, None
+        heap = self.eng.init_heap
+
+        def is_ping(v):
+            return isinstance(v, tuple) and len(v) > 1 and v[0] == "new" and "PINGREQ" in kind_names(self.a, {v[1]})
+        for (obj, field), val in heap.items():
+            if obj == SELF and is_ping(val):
+                self.ping_attr, self.ping, self.ping_packet = field, val, val
+        if self.ping is None:
+            for (obj, field), val in heap.items():
+                if obj != SELF or not (isinstance(val, tuple) and val and val[0] == "new"):
+                    continue
+                held = [v if is_ping(v) else v[1] for (o, _f), v in heap.items() if o == val
+                        and (is_ping(v) or (isinstance(v, tuple) and len(v) > 1 and v[0] == "encres" and is_ping(v[1])))]
+                if held:
+                    self.ping_attr, self.ping, self.ping_packet = field, val, held[0]
         roles = analysis.prog.field_roles()
         self.alarm_fields, self.loop_fields = roles["alarm"], roles["loop"]
         self._none_stores = None
@@ -63,7 +76,7 @@ class Handles:
                 return ("conn",) if obj[1] == "request" else None
             cls = set()
             if obj[0] == "new":
-                cls = {obj[1].split(".")[-1]}
+                cls = kind_names(self.a, {obj[1]})
             elif obj[0] == "param" and tr is not None and tr.kind == "TIMER":
                 cls = {c.split(".")[-1] for c in self.ty.class_of(obj, self.eng, timer_func=tr.entry.func.qual)}
             if "CONNECT" in cls:
